@@ -125,11 +125,9 @@ Lemma drain_all : forall c now h s s' rel,
   (NoDup (map rid (reqs s)) -> forall e, In e rel -> phase_of s' (eid e) = Some Released).
 Proof.
   intros c now h. induction h as [|e h' IH]; intros s s' rel D; simpl in D.
-  - inversion D; subst. simpl. splits; auto.
-    + exists []. reflexivity.
-    + constructor.
-    + intros e [].
-    + intros _ e [].
+  - inversion D; subst. simpl. splits; auto;
+      try (exists []; reflexivity); try (now constructor); try (intros; now constructor);
+      try (intros; simpl in *; contradiction).
   - destruct (counter s <? quota c).
     + destruct (is_parked s (eid e)) eqn:P.
       * destruct (drain c now h' (release s (eid e) now)) as [s2 rel2] eqn:D2.
@@ -165,11 +163,18 @@ Proof.
         -- destruct A as [pre A]. exists (e :: pre). simpl. now rewrite A.
         -- eapply Forall_impl; [|exact F]. intros a Ha. now right.
         -- intros SS. apply StronglySorted_inv in SS. tauto.
-    + inversion D; subst. simpl. splits; auto.
-      * exists []. reflexivity.
-      * constructor.
-      * intros a [].
-      * intros _ a [].
+    + inversion D; subst. simpl. splits; auto;
+        try (exists []; reflexivity); try (now constructor); try (intros; now constructor);
+        try (intros; simpl in *; contradiction).
+Qed.
+
+Lemma NoDup_snoc : forall (l : list Z) x, NoDup l -> ~ In x l -> NoDup (l ++ [x]).
+Proof.
+  induction l as [|y t IH]; simpl; intros x N NI.
+  - constructor; [tauto|constructor].
+  - inversion N; subst. constructor.
+    + intro I. apply in_app_or in I. destruct I as [I|[I|[]]]; [tauto|]. subst. tauto.
+    + apply IH; [assumption|tauto].
 Qed.
 
 Lemma HA_enq : forall c s id p t l now,
@@ -177,16 +182,8 @@ Lemma HA_enq : forall c s id p t l now,
 Proof.
   intros c s id p t l now Fd [S K N].
   assert (ND : forall r0, rid r0 = id -> NoDup (map rid (reqs s ++ [r0]))).
-  { intros r0 E. rewrite map_app. simpl.
-    apply NoDup_app_nodup_l with (l := map rid (reqs s)) in N as N'.
-    clear N'. apply find_None in Fd.
-    assert (NoDup (map rid (reqs s) ++ [rid r0])); [|assumption].
-    rewrite E. clear E.
-    induction (map rid (reqs s)) as [|x t' IH]; simpl.
-    - constructor; [tauto|constructor].
-    - inversion N; subst. constructor.
-      + intro I. apply in_app_or in I. destruct I as [I|[I|[]]]; [tauto|]. subst. apply Fd. now left.
-      + apply IH; auto. intro I. apply Fd. now right. }
+  { intros r0 E. rewrite map_app. simpl. apply NoDup_snoc; [exact N|].
+    rewrite E. now apply find_None. }
   assert (KK : forall r0 e, In e (heap s) ->
             exists r, find (eid e) (reqs s ++ [r0]) = Some r /\ ekey e = rkey r).
   { intros r0 e I. destruct (K e I) as [r [A B]]. exists r. rewrite find_app, A. auto. }
@@ -197,10 +194,9 @@ Proof.
     constructor; simpl; rewrite ?R1, ?H1; auto.
   - apply insert_sorted; auto.
   - intros e I. apply In_insert in I. destruct I as [I|I]; [|auto].
-    subst e. eexists. rewrite find_app, Fd. simpl. rewrite Z.eqb_refl. split; reflexivity.
+    subst e. eexists. unfold eid. simpl snd. rewrite find_app, Fd. simpl. rewrite Z.eqb_refl.
+    split; reflexivity.
 Qed.
-
-Lemma NoDup_app_single_dummy : True. Proof. exact I. Qed.
 
 Lemma HA_upd : forall s id f, spres f -> HA s -> HA (set_reqs (upd id f (reqs s)) s).
 Proof.
@@ -269,9 +265,8 @@ Lemma drain_parked : forall c now h s s' rel,
   (forall e', In e' (heap s') -> In e' h).
 Proof.
   intros c now h. induction h as [|e h' IH]; intros s s' rel D SS ND KS NU LV; simpl in D.
-  - inversion D; subst. simpl. splits; auto.
-    + intros r I L. destruct (LV r I L).
-    + intros r I L. destruct (LV r I L).
+  - inversion D; subst. simpl. splits; auto;
+      try (intros r I L; destruct (LV r I L)).
   - assert (Contra : forall r sx, In r (reqs s) -> live r = true ->
               reqs sx = reqs s -> phase_of sx (rid r) = Some Released -> False).
     { intros r sx I L E P. unfold phase_of in P. rewrite E, (In_find _ _ ND I) in P.
@@ -304,7 +299,7 @@ Proof.
           destruct (LV r I L) as [Q|Q]; [|exact Q].
           exfalso. apply NE. rewrite Q. reflexivity. }
         destruct (IH _ _ _ D2 SS ND1 KS1 NU1 LV1) as (C2 & C3 & C4 & C5 & C6). clear IH.
-        splits; auto.
+        splits; auto; try (intros e' He'; right; now auto).
         -- intros r I L PR e' He'.
            destruct (Z.eq_dec (rid r) (eid e)) as [E|E].
            ++ assert (r = r0).
@@ -322,7 +317,7 @@ Proof.
                   find (eid a) (reqs s) = Some r /\ ekey a = rkey r).
         { intros a Ha. apply KS. now right. }
         destruct (IH _ _ _ D SS ND KS1 NU LV1) as (C2 & C3 & C4 & C5 & C6). clear IH.
-        splits; auto.
+        splits; auto; try (intros e' He'; right; now auto).
     + inversion D; subst. simpl. splits; auto.
       * apply Z.ltb_ge in CQ. intro. lia.
       * intros r I L PR. exfalso. eapply (Contra r); eauto.
@@ -337,9 +332,9 @@ Proof.
   unfold live_in. intros s id H. destruct (find id (reqs s)) as [r|]; [eauto|discriminate].
 Qed.
 
-Lemma noU_of_okP : forall s now, okP (s, Tick now, s) = true -> noU (reqs s).
+Lemma noU_of_okP : forall s now s', okP (s, Tick now, s') = true -> noU (reqs s).
 Proof.
-  unfold okP, noU. intros s now H r I. rewrite forallb_forall in H. specialize (H r I).
+  unfold okP, noU. intros s now s' H r I. rewrite forallb_forall in H. specialize (H r I).
   intro E. rewrite E in H. discriminate.
 Qed.
 
@@ -636,4 +631,69 @@ Proof.
       apply IH; [lia| |exact PI]. apply noU_exec_other; [exact NU|exact I].
     + simpl. constructor; [reflexivity|].
       apply IH; [lia| |exact PI]. apply noU_exec_other; [exact NU|exact I].
+Qed.
+
+(* ------------------------------------------------------------------ *)
+(* more facts along a trace                                             *)
+
+Lemma trace_reject_ok : forall c acts s,
+  Forall (fun tr => reject_ok c tr = true) (trace c s acts).
+Proof.
+  intros c acts. induction acts as [|a rest IH]; intros s; simpl; constructor; auto.
+  apply reject_ok_exec.
+Qed.
+
+Lemma trace_GI : forall c acts s,
+  GI c s ->
+  Forall (fun tr => okP tr = true /\ okQ c tr = true) (trace c s acts) ->
+  Forall (fun tr => GI c (fst (fst tr))) (trace c s acts).
+Proof.
+  intros c acts. induction acts as [|a rest IH]; intros s G F; simpl in *; constructor.
+  - exact G.
+  - inversion F as [|? ? [P Q] F']; subst. apply IH; [|exact F'].
+    destruct G as (H & L & K). split; [now apply HA_exec|].
+    split; [now apply HL_exec|now apply KQ_exec].
+Qed.
+
+(* under both side conditions a new arrival is served at once only when
+   nobody waits *)
+Lemma trace_no_barging : forall c acts s0,
+  GI c s0 ->
+  Forall (fun tr => okP tr = true /\ okQ c tr = true) (trace c s0 acts) ->
+  forall s id p t l now s' r,
+  In (s, EnqLocked id p t l now, s') (trace c s0 acts) ->
+  find id (reqs s) = None -> phase_of s' id = Some Slot ->
+  In r (reqs s) -> live r = false.
+Proof.
+  intros c acts s0 G F s id p t l now s' r I Fd PS Ir.
+  pose proof (trace_GI c acts s0 G F) as TG.
+  rewrite Forall_forall in TG, F.
+  destruct (TG _ I) as (_ & _ & K). destruct (F _ I) as [_ Q].
+  pose proof (trace_step _ _ _ _ I) as E. simpl in E, K. subst s'.
+  eapply enq_no_pass; eauto.
+Qed.
+
+(* what one pass releases, in all states reachable or not *)
+Lemma tick_order : forall c s now,
+  HA s ->
+  let s' := fst (tick c s now) in
+  let rel := snd (tick c s now) in
+  log s' = rev (map (fun e => (eid e, wend s', now)) rel) ++ log s /\
+  StronglySorted kle rel /\
+  (forall e, In e rel ->
+     exists r, find (eid e) (reqs s) = Some r /\ ph r = Parked /\ ekey e = rkey r /\
+               phase_of s' (eid e) = Some Released).
+Proof.
+  intros c s now [S K N]. unfold tick. set (s1 := roll c s now).
+  assert (R1 : reqs s1 = reqs s) by apply roll_reqs.
+  assert (H1 : heap s1 = heap s) by apply roll_heap.
+  assert (L1 : log s1 = log s) by apply roll_log.
+  destruct (drain c now (heap s1) s1) as [s' rel] eqn:D. simpl.
+  destruct (drain_all _ _ _ _ _ _ D) as (_ & _ & Wd & Lg & Fi & So & Pk & _ & Rl).
+  rewrite H1 in *. rewrite R1 in *. splits.
+  - rewrite Lg, L1, Wd. reflexivity.
+  - auto.
+  - intros e I. destruct (Pk e I) as [r [Fr Pr]]. exists r. splits; auto.
+    rewrite Forall_forall in Fi. destruct (K e (Fi e I)) as [r2 [F2 E2]].
+    rewrite Fr in F2. inversion F2; subst r2. exact E2.
 Qed.
